@@ -267,13 +267,15 @@ func EngineWalk(v *vrt.Ctx) {
 // empty, the documented page grows strictly with every row) and the page is
 // compared byte for byte with the documented one.
 func ByteWalk(v *vrt.Ctx) {
+	margin := v.Param("margin")
 	nrows := v.Param("rows")
 	maxlen := v.Param("maxlen")
+	minlen := v.Param("minlen") // minlen = maxlen: long content of one shape, several rows on middle pages
 	c := &c01.Cfg{Static: "hd", HasSink: true}
 	c.Size = v.U32("outputsize")
 	v.Assume(c.Size > 0 && c.Size <= 64)
 	for i := 0; i < nrows; i++ {
-		n := 1 + v.Choice("rowlen", maxlen)
+		n := minlen + v.Choice("rowlen", maxlen-minlen+1)
 		b := v.Bytes("row", n)
 		for _, x := range b {
 			// LF separates rows; NUL is the renderer's reserved in-page
@@ -285,7 +287,10 @@ func ByteWalk(v *vrt.Ctx) {
 	}
 	c.Menu = [][2]string{{"0", "x"}}
 	c.Browse = 2
-	c.NextSel, c.NextTtl, c.PrevSel, c.PrevTtl = "1", "n", "2", "p"
+	// the two browse labels differ in length by more than the margin of finding
+	// F12 (the default ones differ by 4, which is that margin), so
+	// that taking one entry's size for the other's shows
+	c.NextSel, c.NextTtl, c.PrevSel, c.PrevTtl = "1", "n", "2", "previous"
 	if v.Param("resolved") == 1 {
 		c.Resolved = "onward" // what the resource resolves the label "n" to
 	}
@@ -293,7 +298,7 @@ func ByteWalk(v *vrt.Ctx) {
 	base := len(expected(c, rows, 0, -1, false, false))
 	big := false
 	for i := 1; i < len(rows); i++ {
-		big = v.Or(big, len(rows[i])+base+4 > int(c.Size))
+		big = v.Or(big, len(rows[i])+base+margin > int(c.Size))
 	}
 	v.Finding("F12-later-row-fills-page", big)
 	ctx := context.Background()
@@ -359,6 +364,7 @@ func ByteWalk(v *vrt.Ctx) {
 // order - nothing lost, repeated or cut. (Whether an empty row is shown as an
 // empty line is not asserted: they are dropped at page boundaries, F12b.)
 func EmptyRows(v *vrt.Ctx) {
+	margin := v.Param("margin")
 	nrows := v.Param("rows")
 	maxlen := v.Param("maxlen")
 	c := &c01.Cfg{Static: "hd", HasSink: true}
@@ -387,7 +393,7 @@ func EmptyRows(v *vrt.Ctx) {
 	base := len(expected(c, rows, 0, -1, false, false))
 	big := false
 	for i := 1; i < len(rows); i++ {
-		big = v.Or(big, len(rows[i])+base+4 > int(c.Size))
+		big = v.Or(big, len(rows[i])+base+margin > int(c.Size))
 	}
 	v.Finding("F12-later-row-fills-page", big)
 	ctx := context.Background()
